@@ -318,6 +318,12 @@ def standin_multi_qubit(tier, seed):
     nq = 6 if tier == "quick" else 40
     special3 = [np.eye(8), cirq.unitary(cirq.CCX), cirq.unitary(cirq.CCZ), cirq.unitary(cirq.CSWAP), np.kron(cirq.unitary(cirq.CNOT), cirq.unitary(cirq.H)), cirq.unitary(cirq.QuantumFourierTransformGate(3)),
                 np.diag(np.exp(1j * np.arange(8)))]
+    # product-structured inputs: degenerate cosine-sine angles, collapsing multiplexor circuits
+    ru = lambda d: cirq.testing.random_unitary(d, random_state=rng.randrange(10 ** 6))
+    for _ in range(3 if tier == "quick" else 12):
+        special3 += [np.kron(ru(4), ru(2)), np.kron(ru(4), np.eye(2)), np.kron(ru(2), ru(4)), np.kron(np.eye(2), ru(4)), np.kron(np.kron(ru(2), ru(2)), ru(2)),
+                     np.kron(cirq.unitary(cirq.ISWAP) @ np.kron(ru(2), np.eye(2)), ru(2)), np.kron(cirq.unitary(cirq.CNOT), cirq.unitary(cirq.H)) @ np.kron(np.eye(2), ru(4)),
+                     np.kron(ru(2), cirq.unitary(cirq.SWAP)), np.diag(np.exp(1j * np.array([0.1, 0.1, 0.7, 0.7, 0.1, 0.1, 0.7, 0.7]))) @ np.kron(ru(4), np.eye(2))]
     for u in special3 + [cirq.testing.random_unitary(8, random_state=rng.randrange(10 ** 6)) for _ in range(nq)]:
         R.cases += 1
         qs = cirq.LineQubit.range(3)
